@@ -908,3 +908,8 @@ for _meta in sorted(_glob.glob(_os.path.join(_SEEDED, "*", "meta.json"))):
         MUTANTS.append(dict(id="seed-" + _m["id"], props=[_m["property"]], rule=None,
                             patch=_os.path.join(_os.path.dirname(_meta), "patch.diff"), edits=[]))
 
+
+# behaviour-preserving refactorings written by independent sub-agents (seeded/benign/<id>/): every check must stay silent
+for _patch in sorted(_glob.glob(_os.path.join(_SEEDED, "benign", "*", "patch.diff"))):
+    _bid = _os.path.basename(_os.path.dirname(_patch))
+    MUTANTS.append(dict(id="benign-" + _bid, props=ALL, benign=True, patch=_patch, edits=[]))
